@@ -482,7 +482,7 @@ func c06Layout(cfg *core.Config, rep *core.Report, progs []*synth.Program, inGoS
 				}
 				for i, c := range t.Consts {
 					wantName := lowerFirstASCII(c.Name)
-					if _, after, found := strings.Cut(wantName, "_"); found {
+					if _, after, found := strings.Cut(wantName, "_"); found && after != "" { // the member name only aligns positions; X_ keeps its name
 						wantName = lowerFirstASCII(after)
 					}
 					if w.enum.Values[i] != wantName {
